@@ -530,6 +530,20 @@ class PDFStandardSecurityHandlerV4(PDFStandardSecurityHandler):
     def decrypt_identity(self, objid: int, genno: int, data: bytes) -> bytes:
         return data
 
+    @staticmethod
+    def _unpad_aes(plaintext: bytes) -> bytes:
+        """Remove the padding that AES encryption of strings and streams adds
+
+        The data is padded to a multiple of 16 bytes with n bytes of value n,
+        1 <= n <= 16 (ISO 32000-1, 7.6.2). Data that does not end in such a
+        padding is returned as it is.
+        """
+        if plaintext:
+            n = plaintext[-1]
+            if 1 <= n <= 16 and plaintext.endswith(bytes((n,)) * n):
+                return plaintext[:-n]
+        return plaintext
+
     def decrypt_aes128(self, objid: int, genno: int, data: bytes) -> bytes:
         assert self.key is not None
         key = (
@@ -547,7 +561,8 @@ class PDFStandardSecurityHandlerV4(PDFStandardSecurityHandler):
             modes.CBC(initialization_vector),
             backend=default_backend(),
         )  # type: ignore
-        return cipher.decryptor().update(ciphertext)  # type: ignore
+        plaintext = cipher.decryptor().update(ciphertext)  # type: ignore
+        return self._unpad_aes(plaintext)
 
 
 class PDFStandardSecurityHandlerV5(PDFStandardSecurityHandlerV4):
@@ -671,7 +686,8 @@ class PDFStandardSecurityHandlerV5(PDFStandardSecurityHandlerV4):
             modes.CBC(initialization_vector),
             backend=default_backend(),
         )  # type: ignore
-        return cipher.decryptor().update(ciphertext)  # type: ignore
+        plaintext = cipher.decryptor().update(ciphertext)  # type: ignore
+        return self._unpad_aes(plaintext)
 
 
 class PDFDocument:
